@@ -548,6 +548,13 @@ def c04_programs(backend, tier):
         "Select(EventDataset('ds'), lambda e: e.PRIM('A').Select(lambda j: j.vals().Count() == 0 or j.vals()[0] > 1))",
         "Select(SelectMany(EventDataset('ds'), lambda e: e.PRIM('A')).Where(lambda j: j.vals().Count() > 2), lambda j: j.vals()[2])",
         "Select(SelectMany(EventDataset('ds'), lambda e: e.PRIM('A')), lambda j: j.ivals()[j.nTrk()])",
+        # First over a flattened (SelectMany) sequence: undefined exactly when EVERY inner sequence is empty
+        "Select(EventDataset('ds'), lambda e: e.PRIM('A').SelectMany(lambda j: j.vals()).First())",
+        "Select(EventDataset('ds'), lambda e: e.PRIM('A').SelectMany(lambda j: j.vals()).Where(lambda v: v > 1.5).First())",
+        "Select(EventDataset('ds'), lambda e: e.PRIM('A').SelectMany(lambda j: e.SEC('B').Where(lambda t: t.pt() > j.pt())).First().eta())",
+        "Select(Where(EventDataset('ds'), lambda e: e.PRIM('A').SelectMany(lambda j: j.vals()).Count() > 0), lambda e: e.PRIM('A').SelectMany(lambda j: j.vals()).First())",
+        "Select(EventDataset('ds'), lambda e: e.PRIM('A').SelectMany(lambda j: j.vals()).First() if e.PRIM('A').SelectMany(lambda j: j.vals()).Count() > 0 else -1.0)",
+        "Select(EventDataset('ds'), lambda e: e.SEC('B').Select(lambda t: e.PRIM('A').SelectMany(lambda j: j.vals()).Where(lambda v: v > t.pt()).First()))",
     ]
     for q in qs:
         add(q)
@@ -681,6 +688,9 @@ def c13_programs(backend, tier):
                 if ka == "intlit" and kb == "intlit":
                     continue
                 add(f"{a} {op} {b}", ("binop", op, ka, kb))
+    # '**' is a real power: over the whole 32-bit range of an integer base (programs without other integer arithmetic)
+    for expr in ("j.nTrk() ** 2", "j.nTrk() ** 3", "j.nTrk() ** 2 / 2.0", "(j.nTrk() ** 2) > 1.5", "j.nTrk() ** j.nTrk()"):
+        add(expr, ("pow", "wideint"))
     for ka, a in OPERAND.items():
         if ka == "intlit":
             continue
